@@ -792,6 +792,31 @@ def disj_of(c):
     return [c]
 
 
+def r11(ctx, rep):
+    rep.rule("C14.R11", "every operand of an open-syntax expression kind (range, binary, unary, call) is written through write_within, which carries the parent's strength", floor=4)
+    syn = ctx.syn
+    f = [x for x in syn.fns if x["crate"] == "prqlc" and x["file"].endswith("codegen/ast.rs") and x["name"] == "write" and "ExprKind" in (x.get("self_short") or x["path"])]
+    if not f:
+        raise AnchorMissing("<pr::ExprKind as WriteSource>::write")
+    f = f[0]
+    # the arms of `match &self`; how many operands each kind has (from the parser's definition of the kind)
+    want = {"Range": 2, "Binary": 2, "Unary": 1, "FuncCall": 3}
+    seen = {}
+    for m_ in matches_of(f["body"]):
+        for arm in m_["arms"]:
+            h = last_seg(str(pat_head(arm["pat"])))
+            if h not in want:
+                continue
+            ww = [n for n in walk(arm["body"]) if n.get("k") == "call" and last_seg(show(n["f"])) == "write_within"]
+            direct = [n for n in walk(arm["body"]) if n.get("k") == "mcall" and n["m"] == "write" and not show(n["r"]).startswith("opt")]
+            seen[h] = (len(ww), [show(n, maxdepth=4) for n in direct])
+            second = [show(n["a"][1]) for n in ww if len(n["a"]) >= 2]
+            rep.check(len(ww) >= want[h] and not direct and all(a in ("self", "&self") for a in second), f"operands-within:{h}",
+                      f"the {h} arm writes {len(ww)} operand(s) through write_within(.., self, ..) (expected {want[h]}) and {[show(n, maxdepth=4) for n in direct]} directly: a directly written operand is "
+                      "not parenthesised against this kind's strength (`1..(size + 1)` is printed `1..size + 1`, which reads `(1..size) + 1`)", file=f["file"], line=arm["l"], fn=f["path"])
+    rep.check(set(seen) == set(want), "arms", f"expected arms for {sorted(want)} in ExprKind::write, found {sorted(seen)}", file=f["file"], line=f["l"], fn=f["path"])
+
+
 def run(ctx, rep):
-    for r in (r1, r2, r3, r4, r5, r7, r8, r9, r10):
+    for r in (r1, r2, r3, r4, r5, r7, r8, r9, r10, r11):
         rep.guard(r, ctx)
